@@ -276,6 +276,21 @@ def main(tier, replay=None, selftest=False):
             c["gen_failed"] = "%s: %s" % (r["status"], (r.get("msg") or "")[:300])
         else:
             crates[(c["form"], c["consumer"])].add(cid, "#![allow(warnings)]\n" + meta[cid] + r["tokens"])
+    # witnesses of the known findings of this property: compiled in a crate of their own
+    wcrate = CheckCrate("c02_witness", serde=True)
+    wit = {}
+    for finding, w in ck.witnesses():
+        sp = os.path.join(base, "files", "witness_%s.graphql" % finding["id"])
+        open(sp, "w").write(w["schema_sdl"])
+        rs, _ = vlib.gqlv("gen", [{"id": finding["id"], "schema_path": sp, "query": w["query"],
+                                   "options": {"mode": "cli", "module_visibility": "pub"}, "want_tokens": True}])
+        if rs[0]["status"] == "ok":
+            cid = "w_%s" % finding["id"].lower()
+            wcrate.add(cid, "#![allow(warnings)]\n" + rs[0]["tokens"])
+            wit[cid] = finding
+        else:
+            ck.witness_result(finding, True, "")     # refusing the input is not the repair that was asked for, but it is an error
+    crates[("witness", "serde")] = wcrate
     errors = {}
     wsroot = os.path.join(vlib.WORK, "consumers")
     for cr in crates.values():
@@ -295,6 +310,8 @@ def main(tier, replay=None, selftest=False):
         allother += other
     if p.returncode != 0 and not errors:
         raise ToolError("cargo check of the C02 consumer crates failed without attributable diagnostics:\n%s\n%s" % ("\n".join(allother[:4]), p.stderr[-2000:]))
+    for cid, finding in wit.items():
+        ck.witness_result(finding, cid in errors, "the witness now type-checks")
     if selftest:
         errors[next(iter(cases))] = ["E0000 selftest"]
     bykind = {}
